@@ -296,10 +296,11 @@ bool comp_reset_comp_data(zckCtx *zck) {
     if(zck->comp.data) {
         free(zck->comp.data);
         zck->comp.data = NULL;
-        zck->comp.data_size = 0;
-        zck->comp.data_loc = 0;
-        zck->comp.data_idx = NULL;
     }
+    zck->comp.data_size = 0;
+    zck->comp.data_loc = 0;
+    zck->comp.data_idx = NULL;
+    zck->comp.data_eof = false;
     return true;
 }
 
